@@ -292,7 +292,9 @@ type wgState struct {
 // pools
 
 type poolState struct {
-	free []value
+	free       []value
+	private    value
+	hasPrivate bool
 }
 
 // ---------------------------------------------------------------------
